@@ -526,7 +526,10 @@ func (r *yieldRewriter) rewriteForStmt(
 		return children
 	}
 
-	if body.combineRequired() {
+	// continue in body skips the rest of body, but not the post
+	continuable := hasContinue(stmt.Body)
+
+	if body.combineRequired() || continuable {
 		// combine(delay(body), delay(post))
 		// rewriting by seq.Combine avoiding control flow analysis (merging body & post)
 
@@ -546,6 +549,9 @@ func (r *yieldRewriter) rewriteForStmt(
 		r.generateLastNormalIfNecessary(body)
 
 		callCombine := r.CallCombine(body.block, postBlock.block)
+		if continuable {
+			callCombine.Args[0] = r.SeqCall(cstContinuable, callCombine.Args[0])
+		}
 		newBody := mkBlock(body.kind)
 		newBody.pushReturn(callCombine, kindCombine)
 		body = newBody
